@@ -315,9 +315,11 @@ def kani_unit(unit, workdir, text, tier):
     crate = os.path.join(workdir, 'crate')
     os.makedirs(os.path.join(crate, 'src'), exist_ok=True)
     with open(os.path.join(crate, 'Cargo.toml'), 'w') as f:
-        f.write('[package]\nname = "%s"\nversion = "0.0.0"\nedition = "2021"\n\n[lib]\npath = "src/lib.rs"\n\n'
+        f.write('[package]\nname = "%s"\nversion = "0.0.0"\nedition = "2021"\n\n[lib]\npath = "src/lib.rs"\n\n[dependencies]\n%s\n'
                 '[workspace]\n\n[lints.rust]\nunexpected_cfgs = { level = "allow", check-cfg = ["cfg(kani)"] }\n'
-                % unit.NAME.replace('_', '-'))
+                % (unit.NAME.replace('_', '-'), getattr(unit, 'DEPS', '')))
+    if getattr(unit, 'DEPS', '') and os.path.exists(os.path.join(REPO, 'Cargo.lock')):
+        shutil.copy(os.path.join(REPO, 'Cargo.lock'), os.path.join(crate, 'Cargo.lock'))   # pins the real versions of the crates used
     os.makedirs(os.path.join(crate, '.cargo'), exist_ok=True)
     with open(os.path.join(crate, '.cargo', 'config.toml'), 'w') as f:
         f.write('[net]\noffline = true\n')
@@ -369,7 +371,7 @@ def kani_unit(unit, workdir, text, tier):
         raise Undecided('kani ran %d harnesses, unit %s declares %d' % (total, unit.NAME, len(harnesses)))
     obls = []
     for h, o in harnesses.items():
-        isfail = any(fn.split('::')[-1] == h for fn in failed_names) or verdict.get(h) == 'FAILED'
+        isfail = any(fn.split('::')[-1] == h for fn in failed_names)   # (per-harness verdict lines interleave under -j: not used)
         o = dict(o, status='failed' if isfail else 'discharged', backend='kani/cbmc', detail=[])
         if isfail:
             o['detail'].append(_kani_failure_excerpt(out, h))
